@@ -39,6 +39,11 @@ type config struct {
 	// how ENABLE is answered when the extension is not (or cannot be) enabled:
 	// "* ENABLED" without it, no ENABLED response at all, or another extension
 	enableReply string
+	// utf8Only: the server advertises UTF8=ONLY (RFC 6855; nothing is enabled by that)
+	utf8Only bool
+	// strayPlus > 0: after the k-th completed command the server sends a
+	// continuation request that nothing asked for
+	strayPlus int
 }
 
 func (c config) caps() string {
@@ -55,11 +60,14 @@ func (c config) caps() string {
 	if c.utf8Cap {
 		l = append(l, "UTF8=ACCEPT")
 	}
+	if c.utf8Only {
+		l = append(l, "UTF8=ONLY")
+	}
 	return strings.Join(l, " ")
 }
 
 func (c config) String() string {
-	s := fmt.Sprintf("rev2=%v LITERAL-=%v LITERAL+=%v UTF8=ACCEPT(cap=%v,enabled=%v) quiet=%v decisions=%v loginCode=%v unauthCode=%v", c.rev2, c.litMinus, c.litPlus, c.utf8Cap, c.enableUTF8, c.quiet, c.decisions, c.loginCode, c.unauthCode)
+	s := fmt.Sprintf("rev2=%v LITERAL-=%v LITERAL+=%v UTF8=ACCEPT(cap=%v,enabled=%v) quiet=%v decisions=%v loginCode=%v unauthCode=%v UTF8=ONLY=%v strayPlus=%d", c.rev2, c.litMinus, c.litPlus, c.utf8Cap, c.enableUTF8, c.quiet, c.decisions, c.loginCode, c.unauthCode, c.utf8Only, c.strayPlus)
 	if c.alt != nil {
 		s += fmt.Sprintf(" after-relogin{rev2=%v LITERAL-=%v LITERAL+=%v UTF8=ACCEPT=%v}", c.alt.rev2, c.alt.litMinus, c.alt.litPlus, c.alt.utf8Cap)
 	}
@@ -72,20 +80,21 @@ type fataler interface {
 
 // peer is the scripted server loop.
 type peer struct {
-	cfg      config // what is advertised now (rev2, litMinus, litPlus, utf8Cap change on relogin)
-	logins   int
-	s        *script.Server
-	mu       sync.Mutex
-	errs     []string
-	cmds     []*script.Command
-	nsync    int
-	enabled  bool // UTF8=ACCEPT enabled (after the ENABLED response)
-	refused  int
-	done     chan struct{}
-	afterRef bool
-	idleHook  chan struct{}
-	skipNext  bool
-	sawExists chan struct{}
+	cfg        config // what is advertised now (rev2, litMinus, litPlus, utf8Cap change on relogin)
+	logins     int
+	s          *script.Server
+	mu         sync.Mutex
+	errs       []string
+	cmds       []*script.Command
+	nsync      int
+	enabled    bool // UTF8=ACCEPT enabled (after the ENABLED response)
+	refused    int
+	done       chan struct{}
+	afterRef   bool
+	idleHook   chan struct{}
+	skipNext   bool
+	sawExists  chan struct{}
+	noEarlyCheck bool // the stray continuation request could not be ordered before the next command
 }
 
 func (p *peer) errf(f string, a ...any) {
@@ -100,7 +109,10 @@ func (p *peer) loop() {
 	defer close(p.done)
 	s := p.s
 	s.OnLiteral = func(ev *script.LiteralEvent) script.Decision {
-		if p.cfg.quiet && ev.EarlyBytes > 0 {
+		p.mu.Lock()
+		noEarly := p.noEarlyCheck
+		p.mu.Unlock()
+		if p.cfg.quiet && !noEarly && ev.EarlyBytes > 0 {
 			p.errf("the client sent %d byte(s) after the synchronising literal header %q before any continuation request", ev.EarlyBytes, clip(string(ev.Prefix)))
 		}
 		d := "+"
@@ -526,6 +538,33 @@ func runCase(t *rapid.T, cfg config) (hist []string, p *peer) {
 		if !ok && c.State() == imap.ConnStateLogout {
 			break // the client closed the connection (e.g. after a refused literal)
 		}
+		if cfg.strayPlus == i+1 {
+			// a continuation request that nothing asked for, while no command is
+			// in flight. The client may drop the connection; it must not keep it
+			// as the go-ahead for a later literal. (It is followed by an EXISTS:
+			// once that has reached the handler, or the connection is gone, the
+			// client has dealt with the "+"; a "+" that only arrives after the
+			// next literal header could not be told from a genuine one.)
+			s.Send("+ stray continuation request\r\n* 77 EXISTS\r\n")
+			dealt := false
+			for deadline := time.Now().Add(5 * time.Second); time.Now().Before(deadline) && !dealt; time.Sleep(100 * time.Microsecond) {
+				select {
+				case <-p.sawExists:
+					dealt = true
+				default:
+					dealt = c.State() == imap.ConnStateLogout
+				}
+			}
+			if !dealt {
+				p.mu.Lock()
+				p.noEarlyCheck = true
+				p.mu.Unlock()
+			}
+			ev.Class("stray-continuation-request")
+			if c.State() == imap.ConnStateLogout {
+				break
+			}
+		}
 	}
 	return hist, p
 }
@@ -537,6 +576,11 @@ func TestPropSyntax(t *testing.T) {
 		cfg.enableUTF8 = cfg.utf8Cap && rapid.Bool().Draw(t, "enableUTF8")
 		cfg.loginCode, cfg.unauthCode = rapid.Bool().Draw(t, "loginCode"), rapid.Bool().Draw(t, "unauthCode")
 		cfg.enableReply = rapid.SampledFrom([]string{"empty", "bare", "other"}).Draw(t, "enableReply")
+		cfg.utf8Only = rapid.IntRange(0, 3).Draw(t, "utf8only") == 0
+		if rapid.IntRange(0, 5).Draw(t, "stray") == 0 {
+			cfg.strayPlus = rapid.IntRange(1, 4).Draw(t, "strayAfter")
+			cfg.quiet = true // the silence before every continuation request is verified
+		}
 		if rapid.IntRange(0, 2).Draw(t, "capschange") == 0 {
 			cfg.alt = &config{rev2: rapid.Bool().Draw(t, "rev2'"), litMinus: rapid.Bool().Draw(t, "literal-'"), litPlus: rapid.IntRange(0, 3).Draw(t, "literal+'") == 2,
 				utf8Cap: rapid.Bool().Draw(t, "utf8cap'")}
